@@ -108,6 +108,17 @@ class Env:
         return tuple(sorted((k, min(v, 2)) for k, v in self.count.items()))
 
 
+class CountingFds(dict):
+    """The world's fd table, counting look-ups: vos logs a read/write only
+    after it found the fd open for that direction, so an attempt on a
+    wrong-direction fd is visible only here."""
+    lookups = 0
+
+    def __getitem__(self, key):
+        self.lookups += 1
+        return dict.__getitem__(self, key)
+
+
 class Exec:
     """A sequential execution: fresh virtual world (or, with ``real=True``,
     the real kernel with read/write calls on our fds logged)."""
@@ -145,6 +156,7 @@ class Exec:
             w = self.world = vos.reset(self.sched)
             w.io_logging = True
             w.io_log = self.iolog = GuardLog()
+            w.fds = CountingFds(w.fds)
             if self.env is not None:
                 w.io_policy = self.env.policy
         return self
@@ -188,6 +200,16 @@ class Exec:
 
     def io_reset(self):
         del self.iolog[:]
+        if self.world is not None:
+            self.world.fds.lookups = 0
+
+    def attempts(self):
+        """read/write calls logged plus (model) fd-table look-ups: any
+        kernel call on one of our fds, successful or not."""
+        n = len(self.iolog)
+        if self.world is not None:
+            n += self.world.fds.lookups
+        return n
 
 
 def _send_one(tx, sform, i, m, env=None):
@@ -503,10 +525,11 @@ def _forms_handle(ex, rx, tx, c):
     if err is None:
         return None, '%s on a %s handle (%s) returned %r' % (
             op, state, c['kind'], r)
-    if ex.io_n():
+    if ex.attempts():
         return None, ('%s on a %s handle (%s) raised %s only after %d '
-                      'read/write call(s): %r' % (op, state, c['kind'], err,
-                                                  ex.io_n(), list(ex.iolog)))
+                      'kernel call(s) on the fd: %r' % (
+                          op, state, c['kind'], err, ex.attempts(),
+                          list(ex.iolog)))
     v = None
     if state != 'closed-r':
         # the stream was not disturbed
@@ -1255,6 +1278,8 @@ def main(tier, seed, only=None):
         if len(agg['samples']) < 3:
             agg['samples'] += d['samples'][:1]
         for cfg, ch, msg in d['violations']:
+            if len(rep.violations) < 5:
+                _confirm(cfg, ch, msg)
             rep.violation('%s\nconfig=%r' % (msg, cfg),
                           dict(harness='c13', config=cfg, choices=ch))
         for cfg, msg in d.get('known', ()):
@@ -1297,21 +1322,36 @@ def main(tier, seed, only=None):
     return rep.finish()
 
 
-def replay(rp):
-    cfg = rp['config']
-    part = cfg.get('part') or cfg.get('what')
+def _rerun(cfg, choices):
+    """Re-execute one case without the explorer -> (violation, log)."""
     if cfg.get('what'):
         oc, v = _forms_case(cfg, real=bool(cfg.get('real')))
-        print('case', cfg)
-        print('outcome', oc)
-        print('violation:', v)
-        return 1 if v else 0
-    if part == 'conc':
-        x = _run_conc(cfg, rp['choices'])
+        return v, [('case', cfg), ('outcome', oc)]
+    if cfg.get('part') == 'conc':
+        x = _run_conc(cfg, choices)
     else:
-        x = _run_stream(cfg, rp['choices'])
-    for e in x.log:
+        x = _run_stream(cfg, choices)
+    log = [('decision', i, d.label, '%d of %d' % (d.chosen, d.n))
+           for i, d in enumerate(x.decisions)]
+    return x.violation, log + list(x.log) + [
+        ('status', x.status), ('outcome', x.outcome)]
+
+
+def _confirm(cfg, choices, msg):
+    """A violation is reported only if two re-executions of its choice
+    sequence reproduce it with identical logs; anything else is a fault of
+    the machinery, never a verdict."""
+    a, b = _rerun(cfg, choices), _rerun(cfg, choices)
+    if repr(a) != repr(b) or a[0] != msg:
+        raise HarnessError('violation did not replay deterministically: %r'
+                           '\n first %r\n again %r' % (cfg, msg, a[0]))
+
+
+def replay(rp):
+    cfg = rp['config']
+    v, log = _rerun(cfg, rp['choices'])
+    for e in log:
         print(repr(e)[:300])
-    print('status', x.status, 'outcome', x.outcome)
-    print('violation:', x.violation)
-    return 1 if x.violation else 0
+    print('violation:', v)
+    return 1 if v else 0
+
